@@ -87,7 +87,7 @@ def twiss_obs(b, plane):
     return dict(beta=b.beta_y, alpha=b.alpha_y, eps=b.emittance_y, s=b.sigma_y, sp=b.sigma_py, c=b.sigma_ypy, neps=b.normalized_emittance_y)
 
 
-def identity_oracle(b):
+def identity_oracle(b, unit=1e-12):
     """beta>0, eps>=0, beta*gamma-alpha^2 = 1 (tolerance scaled by the cancellation s^2 sp^2 / D), normalized emittance.
     Returns list of (what, value); degenerate (clamped) entries are skipped (unspecified region)."""
     bad = []
@@ -112,12 +112,12 @@ def identity_oracle(b):
                 continue
             gamma = sp * sp / eps
             dev = abs(beta * gamma - alpha * alpha - 1.0)
-            if not dev <= 1e-12 * (1 + kappa) * 10:
+            if not dev <= unit * (1 + kappa) * 10:
                 bad.append((plane + ":beta*gamma-alpha^2-1", dev))
             g, bt = float(torch.atleast_1d(b.relativistic_gamma).flatten()[i % torch.atleast_1d(b.relativistic_gamma).numel()]), \
                 float(torch.atleast_1d(b.relativistic_beta).flatten()[i % torch.atleast_1d(b.relativistic_beta).numel()])
             ne = float(o["neps"].flatten()[i])
-            if not abs(ne - eps * bt * g) <= 1e-12 * abs(ne):
+            if not abs(ne - eps * bt * g) <= unit * abs(ne):
                 bad.append((plane + ":normalized_emittance", ne))
     return bad
 
@@ -200,6 +200,22 @@ def part_goals(run, n, goals, meta, impl_bad):
             add_goal(goals, meta, f"wmean_x {L}", mx, 1e-12 * off, tac2, dict(info, what="mu"))
             add_goal(goals, meta, f"wstd {L}", s, 1e-12 * off, tac2, dict(info, what="sigma"))
             add_goal(goals, meta, f"wcov {L}", c, 1e-12 * off * (1 + abs(s * sp / c) if c else 1), tac2, dict(info, what="sigma_xpx"))
+            add_goal(goals, meta, f"wmean_y {L}", mp, 1e-12 * off, tac2, dict(info, what="mu of the momentum coordinate (survival-weighted)"))
+            add_goal(goals, meta, f"pb_sigpx {L}", sp, 1e-12 * off, "unfold pb_sigpx; tw_stat; cbn [dup_y sx sy sw fst snd]; interval with (i_prec 100).",
+                     dict(info, what="sigma of the momentum coordinate"))
+        # the longitudinal pair (tau, p): mu_tau, mu_p, sigma_tau, sigma_p through the same weighted-statistics model
+        lt = [(p[4], p[5], wi) for p, wi in zip(ps, w)]
+        st_, sp_ = float(pb.sigma_tau), float(pb.sigma_p)
+        if math.isfinite(st_) and math.isfinite(sp_) and st_ > 0 and sp_ > 0:
+            offt = 1 + (float(pb.mu_tau) / st_) ** 2 + (float(pb.mu_p) / sp_) ** 2
+            Lt = coq_smp(lt)
+            info = {"kind": "particle", "plane": "tau", "samples": lt}
+            tac2 = "tw_stat; interval with (i_prec 100)."
+            add_goal(goals, meta, f"wmean_x {Lt}", float(pb.mu_tau), 1e-12 * offt, tac2, dict(info, what="mu_tau"))
+            add_goal(goals, meta, f"wmean_y {Lt}", float(pb.mu_p), 1e-12 * offt, tac2, dict(info, what="mu_p"))
+            add_goal(goals, meta, f"wstd {Lt}", st_, 1e-12 * offt, tac2, dict(info, what="sigma_tau"))
+            add_goal(goals, meta, f"pb_sigpx {Lt}", sp_, 1e-12 * offt, "unfold pb_sigpx; tw_stat; cbn [dup_y sx sy sw fst snd]; interval with (i_prec 100).",
+                     dict(info, what="sigma_p"))
         # the statistics functions called directly (also vectorised: two rows)
         x = T([[p[0] for p in ps], [p[2] for p in ps]])
         y = T([[p[1] for p in ps], [p[3] for p in ps]])
@@ -265,6 +281,26 @@ def from_twiss_statistical(run, n, impl_bad):
                 diffs.append((name, float(got), want))
         if diffs or identity_oracle(b):
             impl_bad.append({"kind": "from_twiss_particles", "beta": beta, "alpha": alpha, "eps": eps, "diffs": diffs + identity_oracle(b)})
+            continue
+        # the same beam with survival probabilities drawn independently of the coordinates (half lost / fractional): still the requested
+        # Twiss parameters within the sampling error of the effective sample size
+        pat = ["mask01", "fractional"][i % 2]
+        gen = torch.Generator().manual_seed(run.rng.randrange(2 ** 31))
+        w = (torch.rand(N, generator=gen) < 0.5).to(DT) if pat == "mask01" else torch.randint(1, 5, (N,), generator=gen).to(DT) / 4
+        bw = b.clone()
+        bw.survival_probabilities = w
+        neff = float(w.sum() ** 2 / (w * w).sum())
+        sdw = math.sqrt(2.0 / neff) * (1 + abs(alpha)) * 2
+        run.count("from_twiss_particles_weighted_" + pat)
+        dw = []
+        for name, want, scale in (("beta_x", beta, beta), ("alpha_x", alpha, 1 + abs(alpha)), ("emittance_x", eps, eps),
+                                  ("beta_y", beta, beta), ("alpha_y", -alpha, 1 + abs(alpha)), ("emittance_y", eps, eps)):
+            got = float(getattr(bw, name))
+            if not abs(got - want) <= 5 * sdw * scale:
+                dw.append((name, got, want))
+        if dw or identity_oracle(bw):
+            impl_bad.append({"kind": "from_twiss_particles_weighted", "beta": beta, "alpha": alpha, "eps": eps, "weights": pat,
+                             "diffs": dw + identity_oracle(bw)})
 
 
 def wstats_oracle(run, n, impl_bad):
@@ -619,6 +655,498 @@ def offaxis_oracle(run, n, impl_bad):
     impl_bad.extend(sorted(found, key=lambda f: len(f["spec"]["x"])))       # smallest failing beam first
 
 
+# ---------------------------------------------------------------- VECTORISED transport: every batch entry obeys the matrix law of ITS OWN setting
+def plane_block(k, L):
+    """textbook 2x2 block of an upright quadrupole plane with focusing strength k (x plane: k1, y plane: -k1); k = 0: drift"""
+    if k > 0:
+        w = math.sqrt(k)
+        return math.cos(w * L), math.sin(w * L) / w, -w * math.sin(w * L), math.cos(w * L)
+    if k < 0:
+        w = math.sqrt(-k)
+        return math.cosh(w * L), math.sinh(w * L) / w, w * math.sinh(w * L), math.cosh(w * L)
+    return 1.0, L, 0.0, 1.0
+
+
+def mul2x2(m2, m1):
+    """m2 . m1 (m1 acts first)"""
+    a, b, c, d = m1
+    e, f, g, h = m2
+    return e * a + f * c, e * b + f * d, g * a + h * c, g * b + h * d
+
+
+def gen_kvec(rng, B):
+    """a vectorised k1 scan: mixed signs, an exact zero next to non-zero strengths most of the time"""
+    pool = [-3.0, -1.5, -0.4, 0.7, 2.0, 4.5, 10.0, -8.0, 1e-3]
+    mode = rng.choice(["through_zero", "through_zero", "through_zero", "nonzero", "two_zeros", "all_zero"])
+    ks = [rng.choice(pool) * rng.uniform(0.5, 1.5) for _ in range(B)]
+    if mode in ("through_zero", "two_zeros"):
+        ks[rng.randrange(B)] = 0.0
+    if mode == "two_zeros":
+        ks[rng.randrange(B)] = 0.0
+    if mode == "all_zero":
+        ks = [0.0] * B
+    if mode == "through_zero" and rng.random() < 0.5:
+        ks = sorted(ks)                           # a monotone scan through zero
+    return ks, mode
+
+
+def gen_cov_spec(rng):
+    bx, by, bt = gen_block(rng), gen_block(rng), gen_block(rng)
+    cov = [[0.0] * 7 for _ in range(7)]
+    for o, b in ((0, bx), (2, by), (4, bt)):
+        cov[o][o], cov[o][o + 1], cov[o + 1][o], cov[o + 1][o + 1] = b[0], b[1], b[1], b[2]
+    return [rng.uniform(-1e-3, 1e-3) for _ in range(6)] + [1.0], cov
+
+
+def gen_cloud(rng, n):
+    """n particles of a non-degenerate bunch (correlated x-px, y-py)"""
+    sxs, sps = rng.choice([1e-4, 1e-3]), rng.choice([1e-5, 1e-4])
+    cx, cy = rng.choice([0.0, 0.6, -1.5]), rng.choice([0.0, -0.8, 1.2])
+    ps = []
+    for _ in range(n):
+        x, y = rng.gauss(0, sxs), rng.gauss(0, sxs)
+        ps.append([x + rng.choice([0.0, 2e-4]), rng.gauss(0, sps) + cx * x * sps / sxs, y, rng.gauss(0, sps) + cy * y * sps / sxs,
+                   rng.gauss(0, 1e-4), rng.gauss(0, 1e-4), 1.0])
+    return ps
+
+
+def gen_transport_vec(rng):
+    B = rng.choice([3, 4, 5])
+    kind = rng.choice(["quad", "quad", "segment", "segment", "drift"])
+    ks, kmode = gen_kvec(rng, B)
+    vecL = rng.random() < 0.4 or kind == "drift"
+    Ls = [rng.choice([0.1, 0.2, 0.35, 0.5]) * rng.uniform(0.8, 1.2) for _ in range(B)] if vecL else [rng.choice([0.1, 0.2, 0.35, 0.5])] * B
+    spec = {"kind": kind, "B": B, "k1": ks if kind != "drift" else [0.0] * B, "k1_mode": kmode if kind != "drift" else "none", "length": Ls,
+            "length_vectorised": vecL, "k1_vectorised": kind != "drift" and (rng.random() < 0.9 or not vecL),
+            "drifts": [rng.choice([0.3, 0.7, 1.1]), rng.choice([0.2, 0.5, 1.3])] if kind == "segment" else None,
+            "energy": rng.choice([5e6, 1e8, 6e9])}
+    if kind != "drift" and not spec["k1_vectorised"]:
+        spec["k1"] = [ks[0]] * B
+    bt = rng.choice(["parameter", "parameter_vec", "particle", "particle_vec", "particle_weighted"])
+    spec["beam_type"] = bt
+    if bt == "parameter":
+        spec["beam"] = [gen_cov_spec(rng)]
+    elif bt == "parameter_vec":
+        spec["beam"] = [gen_cov_spec(rng) for _ in range(B)]
+    else:
+        n = rng.choice([6, 8, 12])
+        spec["beam"] = [gen_cloud(rng, n) for _ in range(B if bt == "particle_vec" else 1)]
+        spec["survival"] = None
+        if bt == "particle_weighted":
+            spec["survival"] = [[rng.choice([1.0, 1.0, 0.5, 0.25, 0.0]) for _ in range(n)] for _ in range(B)]
+            for row in spec["survival"]:
+                row[0], row[1], row[2], row[3] = 1.0, 1.0, 0.5, 1.0
+    return spec
+
+
+def tv_beam(spec, i=None):
+    """the incoming beam of a vectorised-transport spec (i: the un-vectorised beam of batch entry i)"""
+    import cheetah
+    E = T(spec["energy"])
+    items = spec["beam"]
+    if spec["beam_type"].startswith("parameter"):
+        if i is not None:
+            mu, cov = items[i % len(items)]
+        elif len(items) == 1:
+            mu, cov = items[0]
+        else:
+            mu, cov = [m for m, _ in items], [c for _, c in items]
+        return cheetah.ParameterBeam(T(mu), T(cov), E, total_charge=T(1e-12), dtype=DT)
+    n = len(items[0])
+    sv = spec.get("survival")
+    if i is not None:
+        ps, w = items[i % len(items)], (sv[i] if sv else [1.0] * n)
+    else:
+        ps = items[0] if len(items) == 1 else items
+        w = sv if sv else [1.0] * n
+    return cheetah.ParticleBeam(T(ps), E, particle_charges=T([1e-12] * n), survival_probabilities=T(w), dtype=DT)
+
+
+def tv_element(spec, i=None):
+    import cheetah
+    k1 = spec["k1"] if i is None else spec["k1"][i]
+    L = spec["length"] if i is None else spec["length"][i]
+    if i is None:
+        if not spec.get("k1_vectorised", True):
+            k1 = k1[0]
+        if not spec["length_vectorised"]:
+            L = L[0]
+    if spec["kind"] == "drift":
+        return cheetah.Drift(length=T(L), dtype=DT)
+    q = cheetah.Quadrupole(length=T(L), k1=T(k1), dtype=DT)
+    if spec["kind"] == "quad":
+        return q
+    return cheetah.Segment([cheetah.Drift(length=T(spec["drifts"][0]), dtype=DT), q, cheetah.Drift(length=T(spec["drifts"][1]), dtype=DT)])
+
+
+def check_transport_vec(spec):
+    """every batch entry of the outgoing beam has the beta / alpha / emittance that the standard matrix law gives for THAT entry's own
+    strength, length and incoming Twiss parameters (textbook blocks, not the code's transfer map), and the ones that tracking the entry
+    alone gives.  Returns list of diffs."""
+    diffs = []
+    B = spec["B"]
+    try:
+        vin = tv_beam(spec)
+        vout = tv_element(spec).track(vin)
+        obs = {pl: {k: flat(v) for k, v in twiss_obs(vout, pl).items()} for pl in ("x", "y")}
+    except Exception as ex:
+        return [("vectorised tracking raised", repr(ex)[:300])]
+    for pl in ("x", "y"):
+        for k in ("beta", "alpha", "eps"):
+            if len(obs[pl][k]) not in (B, 1):
+                diffs.append((f"{pl}:{k} has {len(obs[pl][k])} entries", B))
+    if diffs:
+        return diffs
+    for i in range(B):
+        try:
+            bi = tv_beam(spec, i)
+            oi = tv_element(spec, i).track(bi)
+        except Exception as ex:
+            return [("tracking entry %d alone raised" % i, repr(ex)[:300])]
+        for pl, sign in (("x", 1.0), ("y", -1.0)):
+            ti, to1 = twiss_obs(bi, pl), twiss_obs(oi, pl)
+            Bi, Ai, Ei = float(ti["beta"]), float(ti["alpha"]), float(ti["eps"])
+            s, sp, c = float(ti["s"]), float(ti["sp"]), float(ti["c"])
+            D = s * s * sp * sp - c * c
+            if not (D > 0 and s * s * sp * sp / D < 1e5 and Ei > 0):
+                continue
+            Gi = sp * sp / Ei
+            m = plane_block(sign * spec["k1"][i], spec["length"][i]) if spec["kind"] != "drift" else (1.0, spec["length"][i], 0.0, 1.0)
+            if spec["kind"] == "segment":
+                m = mul2x2((1.0, spec["drifts"][1], 0.0, 1.0), mul2x2(m, (1.0, spec["drifts"][0], 0.0, 1.0)))
+            a_, b_, c_, d_ = m
+            def law(m_):
+                a1, b1, c1, d1 = m_
+                return a1 * a1 * Bi - 2 * a1 * b1 * Ai + b1 * b1 * Gi, -a1 * c1 * Bi + (a1 * d1 + b1 * c1) * Ai - b1 * d1 * Gi
+            wantB, wantA = law(m)
+            scaleB = a_ * a_ * Bi + abs(2 * a_ * b_ * Ai) + b_ * b_ * Gi
+            scaleA = abs(a_ * c_ * Bi) + abs((a_ * d_ + b_ * c_) * Ai) + abs(b_ * d_ * Gi) + 1
+            slackB = slackA = 0.0
+            if spec["kind"] != "drift" and spec["k1"][i] == 0.0:
+                # base_rmatrix documents that an exactly zero strength is tracked as k1 = 1e-12 ("avoid division by zero"): a drift up to
+                # that strength -- the difference of the two laws (large beta functions make it exceed the rounding level) is allowed
+                m12 = plane_block(sign * 1e-12, spec["length"][i])
+                if spec["kind"] == "segment":
+                    m12 = mul2x2((1.0, spec["drifts"][1], 0.0, 1.0), mul2x2(m12, (1.0, spec["drifts"][0], 0.0, 1.0)))
+                wB2, wA2 = law(m12)
+                slackB, slackA = 2 * abs(wB2 - wantB), 2 * abs(wA2 - wantA)
+            gotB, gotA, gotE = (obs[pl][k][i % len(obs[pl][k])] for k in ("beta", "alpha", "eps"))
+            kap = (1 + Ai * Ai + wantA * wantA) * (1 + s * s * sp * sp / D)
+            tag = f"entry {i} (k1={spec['k1'][i]!r}, L={spec['length'][i]!r}) {pl}:"
+            if not abs(gotB - wantB) <= 1e-9 * kap * scaleB + slackB:
+                diffs.append((tag + "beta vs matrix law of this entry", gotB, wantB))
+            if not abs(gotA - wantA) <= 1e-9 * kap * scaleA + slackA:
+                diffs.append((tag + "alpha vs matrix law of this entry", gotA, wantA))
+            if not abs(gotE - Ei) <= 1e-9 * kap * scaleB / Bi * Ei:
+                diffs.append((tag + "emittance not conserved", gotE, Ei))
+            for nm, got, one in (("beta", gotB, float(to1["beta"])), ("alpha", gotA, float(to1["alpha"])), ("emittance", gotE, float(to1["eps"]))):
+                sc = {"beta": scaleB, "alpha": scaleA, "emittance": Ei * scaleB / Bi}[nm]
+                if not abs(got - one) <= 1e-9 * kap * sc:
+                    diffs.append((tag + nm + " vs tracking this entry alone", got, one))
+        if diffs:
+            break
+    return diffs
+
+
+def shrink_transport_vec(spec):
+    """drop batch entries while the failure persists"""
+    import copy
+    changed = True
+    while changed and spec["B"] > 2:
+        changed = False
+        for j in range(spec["B"]):
+            s2 = copy.deepcopy(spec)
+            s2["B"] -= 1
+            del s2["k1"][j], s2["length"][j]
+            if len(s2["beam"]) > 1:
+                del s2["beam"][j]
+            if s2.get("survival"):
+                del s2["survival"][j]
+            try:
+                if check_transport_vec(s2):
+                    spec, changed = s2, True
+                    break
+            except Exception:
+                pass
+    return spec
+
+
+def transport_vec_oracle(run, n, impl_bad):
+    found = []
+    for _ in range(n):
+        spec = gen_transport_vec(run.rng)
+        run.add_case(["transport_vec", spec], True)
+        run.count("transport_vec_" + spec["kind"] + "_" + spec["beam_type"])
+        run.count("transport_vec_k1_" + spec["k1_mode"])
+        if spec["length_vectorised"]:
+            run.count("transport_vec_lengths_vectorised")
+        diffs = check_transport_vec(spec)
+        if diffs:
+            found.append(spec)
+    for spec in found[:1]:
+        spec = shrink_transport_vec(spec)
+        impl_bad.append({"kind": "transport_vectorised", "spec": spec, "diffs": check_transport_vec(spec)[:6],
+                         "claim": "Twiss parameters transport through drifts / upright quadrupoles by the standard matrix law in every entry of a "
+                                  "vectorised setting (instantiation of C17_twiss_transport per entry)"})
+
+
+# ---------------------------------------------------------------- survival-WEIGHTED statistics: all six mu_*, all six sigma_*, both covariances
+COORDS = ["x", "px", "y", "py", "tau", "p"]
+MU = ["mu_" + c for c in COORDS]
+SIG = ["sigma_" + c for c in COORDS]
+COVS = {"sigma_xpx": (0, 1), "sigma_ypy": (2, 3)}
+
+
+def exact_stats6(rows, w):
+    """exact rational weighted statistics of all six coordinates of the stored rows; None when undefined (W = 0 or correction factor <= 0)"""
+    from fractions import Fraction as Fr
+    w = [Fr(v) for v in w]
+    W = sum(w)
+    if W <= 0:
+        return None
+    cf = W - sum(v * v for v in w) / W
+    if cf <= 0:
+        return None
+    cols = [[Fr(r[j]) for r in rows] for j in range(6)]
+    mean = [sum(a * b for a, b in zip(col, w)) / W for col in cols]
+
+    def cv(i, j):
+        return sum(c * (a - mean[i]) * (b - mean[j]) for a, b, c in zip(cols[i], cols[j], w)) / cf
+    ex = {"W": W, "cf": cf, "mean": mean, "var": [cv(j, j) for j in range(6)], "cov": {k: cv(*ij) for k, ij in COVS.items()},
+          "max": [max(abs(v) for v in col) for col in cols]}
+    if all(v in (0, 1) for v in w):
+        # the literal statement "lost particles are absent": ordinary unbiased sample statistics of the survivors
+        keep = [k for k, v in enumerate(w) if v == 1]
+        m = len(keep)
+        om = [sum(col[k] for k in keep) / m for col in cols]
+        ex["deleted"] = {"mean": om, "var": [sum((col[k] - om[j]) ** 2 for k in keep) / (m - 1) for j, col in enumerate(cols)],
+                         "cov": {nm: sum((cols[i][k] - om[i]) * (cols[j][k] - om[j]) for k in keep) / (m - 1) for nm, (i, j) in COVS.items()}}
+    return ex
+
+
+def stats6_tolerances(ex, n, eps):
+    """rounding bounds of the two-pass formulas (see offaxis_tolerances), x 4"""
+    u = eps * (n / 2 + 4)
+    q = float(ex["W"] / ex["cf"])
+    t = {"mean": [4 * u * float(m) + 1e-300 for m in ex["max"]], "sig": [], "r": []}
+    for j in range(6):
+        s = math.sqrt(float(ex["var"][j]))
+        r = 3 * u + q * (u * float(ex["max"][j]) / s) ** 2 if s > 0 else float("inf")
+        t["r"].append(r)
+        t["sig"].append(4 * s * r + 1e-300)
+    t["cov"] = {nm: 4 * math.sqrt(float(ex["var"][i]) * float(ex["var"][j])) * (3 * u + q * u * u * float(ex["max"][i]) * float(ex["max"][j])
+                                                                                   / max(math.sqrt(float(ex["var"][i]) * float(ex["var"][j])), 1e-300)) + 1e-300
+                for nm, (i, j) in COVS.items()}
+    return t
+
+
+def build_w6(rows, w, dtype="float64"):
+    import cheetah
+    dt = DTYPES[dtype]
+    t = lambda v: torch.tensor(v, dtype=dt)  # noqa: E731
+    n = len(rows[0]) if isinstance(rows[0][0], list) else len(rows)
+    return cheetah.ParticleBeam(t(rows), t(1e8), particle_charges=t([2.0 ** -40] * n), survival_probabilities=t(w), dtype=dt)
+
+
+def getters6(b):
+    out = {}
+    for nm in MU + SIG + list(COVS):
+        out[nm] = flat(getattr(b, nm))
+    return out
+
+
+def entries6(b):
+    """[(stored rows, stored weights)] per batch entry of a beam"""
+    P, S = b.particles.double(), b.survival_probabilities.double()
+    bs = tuple(torch.broadcast_shapes(P.shape[:-2], S.shape[:-1]))
+    P, S = torch.broadcast_to(P, bs + P.shape[-2:]).reshape(-1, *P.shape[-2:]), torch.broadcast_to(S, bs + S.shape[-1:]).reshape(-1, S.shape[-1])
+    return [(P[k].tolist(), S[k].tolist()) for k in range(P.shape[0])]
+
+
+def against_exact6(b, dtype, tag):
+    """every getter of every batch entry vs the exact weighted statistics of the stored coordinates and weights of that entry"""
+    diffs = []
+    eps = float(torch.finfo(DTYPES[dtype]).eps)
+    try:
+        obs = getters6(b)
+    except Exception as ex:
+        return [(tag + "a statistics getter raised", repr(ex)[:300])], None
+    ents = entries6(b)
+    exs = []
+    for e, (rows, w) in enumerate(ents):
+        ex = exact_stats6(rows, w)
+        exs.append(ex)
+        if ex is None:
+            continue
+        t = stats6_tolerances(ex, len(rows), eps)
+        et = tag + (f"entry {e}:" if len(ents) > 1 else "")
+        for j, c in enumerate(COORDS):
+            for nm, got, want, tol in (("mu_" + c, obs["mu_" + c], float(ex["mean"][j]), t["mean"][j]),
+                                       ("sigma_" + c, obs["sigma_" + c], math.sqrt(float(ex["var"][j])), t["sig"][j])):
+                if len(got) != len(ents):
+                    diffs.append((et + nm + " has %d entries, the beam %d" % (len(got), len(ents)),))
+                elif not abs(got[e] - want) <= tol:
+                    diffs.append((et + nm + " vs exact survival-weighted statistic", got[e], want, tol))
+                if "deleted" in ex and len(got) == len(ents):
+                    w2 = float(ex["deleted"]["mean"][j]) if nm.startswith("mu") else math.sqrt(float(ex["deleted"]["var"][j]))
+                    if not abs(got[e] - w2) <= tol:
+                        diffs.append((et + nm + " vs ordinary sample statistic of the beam with the lost particles deleted", got[e], w2, tol))
+        for nm in COVS:
+            got = obs[nm]
+            if len(got) != len(ents):
+                diffs.append((et + nm + " has %d entries, the beam %d" % (len(got), len(ents)),))
+                continue
+            if not abs(got[e] - float(ex["cov"][nm])) <= t["cov"][nm]:
+                diffs.append((et + nm + " vs exact survival-weighted covariance", got[e], float(ex["cov"][nm]), t["cov"][nm]))
+            if "deleted" in ex and not abs(got[e] - float(ex["deleted"]["cov"][nm])) <= t["cov"][nm]:
+                diffs.append((et + nm + " vs sample covariance with the lost particles deleted", got[e], float(ex["deleted"]["cov"][nm]), t["cov"][nm]))
+    return diffs, (obs, ents, exs)
+
+
+def check_weighted6(spec):
+    """all statistics clauses on a beam with non-trivial survival probabilities (0/1 mask, fractional, vectorised masks):
+    every getter vs the exact rational reference; translation / scaling of EACH coordinate; permutation; the Twiss identity."""
+    from fractions import Fraction as Fr
+    dtype = spec["dtype"]
+    dt = DTYPES[dtype]
+    eps = float(torch.finfo(dt).eps)
+    try:
+        b0 = build_w6(spec["rows"], spec["survival"], dtype)
+    except Exception as ex:
+        return [("constructing the beam raised", repr(ex)[:300])]
+    diffs, info = against_exact6(b0, dtype, "")
+    if diffs or info is None:
+        return diffs
+    obs0, ents0, exs0 = info
+    if any(ex is None for ex in exs0):
+        return diffs
+    tol0 = [stats6_tolerances(ex, len(r), eps) for ex, (r, _w) in zip(exs0, ents0)]
+    bad_id = identity_oracle(b0, unit=1e-12 if dtype == "float64" else 2e-6)
+    if bad_id:
+        diffs.append(("Twiss identity on a beam with survival weights", bad_id))
+    for j, c in enumerate(COORDS):
+        a, k = spec["shift"][j], spec["scale"][j]
+        for what in ("shift", "scale"):
+            b1 = b0.clone()
+            col = getattr(b1, c)
+            setattr(b1, c, col + torch.tensor(a, dtype=dt) if what == "shift" else col * torch.tensor(k, dtype=dt))
+            d1, info1 = against_exact6(b1, dtype, f"{c} {what}ed:")
+            if d1 or info1 is None:
+                diffs += d1
+                continue
+            obs1, ents1, exs1 = info1
+            for e, (ex0, ex1) in enumerate(zip(exs0, exs1)):
+                if ex1 is None:
+                    continue
+                t0, t1 = tol0[e], stats6_tolerances(ex1, len(ents1[e][0]), eps)
+                af, kf = Fr(float(torch.tensor(a, dtype=dt))), Fr(float(torch.tensor(k, dtype=dt)))
+                # exactly measured rounding of the stored transformed coordinates
+                dmax = float(max(abs(Fr(r1[j]) - (Fr(r0[j]) + af if what == "shift" else Fr(r0[j]) * kf)) for r0, r1 in zip(ents0[e][0], ents1[e][0])))
+                qq = math.sqrt(float(ex0["W"] / ex0["cf"]))
+                mu0, sg0 = obs0["mu_" + c][e], obs0["sigma_" + c][e]
+                mu1, sg1 = obs1["mu_" + c][e], obs1["sigma_" + c][e]
+                wm, ws = (mu0 + float(af), sg0) if what == "shift" else (mu0 * float(kf), sg0 * abs(float(kf)))
+                f = 1.0 if what == "shift" else abs(float(kf))
+                if not abs(mu1 - wm) <= f * t0["mean"][j] + t1["mean"][j] + dmax + eps * abs(wm):
+                    diffs.append((f"entry {e}: mu_{c} after {what} of {c}", mu1, wm))
+                if not abs(sg1 - ws) <= f * t0["sig"][j] + t1["sig"][j] + 2 * qq * dmax:
+                    diffs.append((f"entry {e}: sigma_{c} after {what} of {c}", sg1, ws))
+                for nm, (i1, i2) in COVS.items():
+                    if j not in (i1, i2):
+                        if obs1[nm][e] != obs0[nm][e]:
+                            diffs.append((f"entry {e}: {nm} changed by a {what} of {c}", obs1[nm][e], obs0[nm][e]))
+                        continue
+                    other = i2 if j == i1 else i1
+                    wc = obs0[nm][e] if what == "shift" else obs0[nm][e] * float(kf)
+                    if not abs(obs1[nm][e] - wc) <= f * t0["cov"][nm] + t1["cov"][nm] + 2 * qq * dmax * math.sqrt(float(ex0["var"][other])):
+                        diffs.append((f"entry {e}: {nm} after {what} of {c}", obs1[nm][e], wc))
+                for c2 in COORDS:
+                    if c2 != c and (obs1["mu_" + c2][e] != obs0["mu_" + c2][e] or obs1["sigma_" + c2][e] != obs0["sigma_" + c2][e]):
+                        diffs.append((f"entry {e}: mu_{c2} / sigma_{c2} changed by a {what} of {c}",))
+    # permutation of the particles (coordinates and weights together)
+    perm = spec["perm"]
+    vec_rows = isinstance(spec["rows"][0][0], list)
+    vec_w = isinstance(spec["survival"][0], list)
+    rows_p = [[r[k] for k in perm] for r in spec["rows"]] if vec_rows else [spec["rows"][k] for k in perm]
+    w_p = [[r[k] for k in perm] for r in spec["survival"]] if vec_w else [spec["survival"][k] for k in perm]
+    try:
+        obs2 = getters6(build_w6(rows_p, w_p, dtype))
+        for e in range(len(ents0)):
+            t = tol0[e]
+            for j, c in enumerate(COORDS):
+                if not abs(obs2["mu_" + c][e] - obs0["mu_" + c][e]) <= 2 * t["mean"][j] or not abs(obs2["sigma_" + c][e] - obs0["sigma_" + c][e]) <= 2 * t["sig"][j]:
+                    diffs.append((f"entry {e}: mu_{c} / sigma_{c} changed by reordering the particles", obs2["mu_" + c][e], obs0["mu_" + c][e]))
+            for nm in COVS:
+                if not abs(obs2[nm][e] - obs0[nm][e]) <= 2 * t["cov"][nm]:
+                    diffs.append((f"entry {e}: {nm} changed by reordering the particles", obs2[nm][e], obs0[nm][e]))
+    except Exception as ex:
+        diffs.append(("permuted beam raised", repr(ex)[:300]))
+    return diffs
+
+
+def gen_weight_row6(rng, n, pattern):
+    while True:
+        if pattern == "mask01":
+            w = [rng.choice([1.0, 1.0, 0.0]) for _ in range(n)]
+        elif pattern == "fractional":
+            w = [rng.choice([1.0, 0.5, 0.25, 0.75, 0.125]) for _ in range(n)]
+        else:
+            w = [rng.choice([1.0, 1.0, 0.5, 0.25, 0.0, 0.0]) for _ in range(n)]
+        W = sum(w)
+        if W > 0 and W - sum(v * v for v in w) / W >= 1.0 and any(v != 1.0 for v in w):
+            return w
+
+
+def gen_weighted6(rng):
+    dtype = rng.choice(["float64", "float64", "float32"])
+    n = rng.choice([4, 5, 6, 8, 12])
+    scales = [rng.choice([1e-4, 1e-3]), rng.choice([1e-5, 1e-4]), rng.choice([1e-4, 3e-4]), rng.choice([1e-5, 2e-4]), rng.choice([1e-4, 1e-3]), rng.choice([1e-4, 1e-3])]
+    offs = [rng.choice([0.0, 1.0, -2.0]) * s for s in scales]
+
+    def rows():
+        out = []
+        for _ in range(n):
+            g = [rng.gauss(0, 1) for _ in range(6)]
+            g[1] += 0.7 * g[0]
+            g[3] -= 0.5 * g[2]
+            out.append([offs[j] + scales[j] * g[j] for j in range(6)] + [1.0])
+        return out
+    layout = rng.choice(["scalar", "scalar", "vector_mask", "vector_mask", "vector_full"])
+    pat = lambda: rng.choice(["mask01", "mask01", "fractional", "mixed"])  # noqa: E731
+    if layout == "scalar":
+        R, W = rows(), gen_weight_row6(rng, n, pat())
+    elif layout == "vector_mask":
+        B = rng.choice([2, 3])
+        R, W = rows(), [gen_weight_row6(rng, n, pat()) for _ in range(B)]
+    else:
+        B = rng.choice([2, 3])
+        R, W = [rows() for _ in range(B)], [gen_weight_row6(rng, n, pat()) for _ in range(B)]
+    dt = DTYPES[dtype]
+    R = torch.tensor(R, dtype=dt).double().tolist()
+    perm = list(range(n))
+    rng.shuffle(perm)
+    return {"dtype": dtype, "layout": layout, "rows": R, "survival": W, "perm": perm,
+            "shift": [rng.choice([1.0, -3.0, 7.0]) * s for s in scales], "scale": [rng.choice([-2.0, 0.5, 4.0, -0.25]) for _ in range(6)]}
+
+
+def weighted6_oracle(run, n, impl_bad):
+    found = []
+    for _ in range(n):
+        spec = gen_weighted6(run.rng)
+        run.add_case(["weighted6", spec], True)
+        run.count("weighted6_" + spec["layout"] + "_" + spec["dtype"])
+        flatw = [v for r in (spec["survival"] if isinstance(spec["survival"][0], list) else [spec["survival"]]) for v in r]
+        run.count("weighted6_with_lost_particles" if 0.0 in flatw else "weighted6_all_alive")
+        run.count("weighted6_with_fractional_survival" if any(0 < v < 1 for v in flatw) else "weighted6_01_only")
+        diffs = check_weighted6(spec)
+        if diffs:
+            found.append({"kind": "weighted_statistics", "spec": spec, "diffs": diffs[:8],
+                          "claim": "all six mu_*, all six sigma_* and both covariances are the survival-weighted statistics (lost particles absent), "
+                                   "translate / scale with each coordinate and are invariant under reordering, on beams with 0/1, fractional and "
+                                   "vectorised survival probabilities"})
+    impl_bad.extend(sorted(found, key=lambda f: len(json.dumps(f["spec"]))))
+
+
 def degenerate_note(run):
     """F19: a perfectly correlated beam is clamped; the identity does not hold there (scoped by hypothesis, not a finding line)"""
     import cheetah
@@ -692,6 +1220,8 @@ def main(tier, replay=None):
     # (run after the older stages so that those see the same random stream as before)
     stage("degenerate_oracle", degenerate_oracle, run, 400 if thorough else 40, impl_bad)
     stage("offaxis_oracle", offaxis_oracle, run, 400 if thorough else 40, impl_bad)
+    stage("transport_vec_oracle", transport_vec_oracle, run, 1500 if thorough else 150, impl_bad)
+    stage("weighted6_oracle", weighted6_oracle, run, 1200 if thorough else 120, impl_bad)
     stage("degenerate_note", degenerate_note, run)
     failing, errs = common.run_real_goals(PID, "twiss", PRE, goals, shard=10)
     run.cov["traces_validated_against_impl"] += len(goals)
@@ -741,6 +1271,10 @@ def do_replay(run, path):
         bad = check_degenerate(r["spec"])
     elif kind == "offaxis_statistics":
         bad = check_offaxis(r["spec"])[0]
+    elif kind == "transport_vectorised":
+        bad = check_transport_vec(r["spec"])
+    elif kind == "weighted_statistics":
+        bad = check_weighted6(r["spec"])
     else:
         print("replay: re-run the check to reproduce kind", kind)
         return 0
